@@ -244,9 +244,51 @@ class Intervals:
             m = re.match(r"^&?(mut )?\[.*; (\d+)\]$", ty)
             if m:
                 return int(m.group(2))
+        # a reference to a fixed-size array field: &self.magic
+        if not pl["p"]:
+            ds = [d for d in b.defs(pl["l"]) if not d[4]]
+            for _ in range(4):
+                if len(ds) == 1 and ds[0][2] == "assign" and ds[0][3]["rv"]["r"] in ("use", "cast") and op_place(ds[0][3]["rv"]["o"]) is not None and not op_place(ds[0][3]["rv"]["o"])["p"]:
+                    ds = [d for d in b.defs(op_place(ds[0][3]["rv"]["o"])["l"]) if not d[4]]
+                else:
+                    break
+            if len(ds) == 1 and ds[0][2] == "assign" and ds[0][3]["rv"]["r"] == "ref":
+                rp = ds[0][3]["rv"]["p"]
+                flds = [p for p in rp["p"] if isinstance(p, dict) and "n" in p]
+                facts = getattr(b, "facts", None)
+                if flds and facts is not None and isinstance(rp["p"][-1], dict) and "n" in rp["p"][-1]:
+                    base_ty = b.local_ty(rp["l"])
+                    for a in facts.adts.values():
+                        short = a["path"].rsplit("::", 1)[-1]
+                        if re.search(r"(^|::|&|&mut )%s(<|$)" % re.escape(short), base_ty) and len(flds) == 1:
+                            for v in a["variants"]:
+                                for fl in v["fields"]:
+                                    if fl["name"] == flds[-1]["n"]:
+                                        m = re.match(r"^\[.*; (\d+)\]$", fl["ty"])
+                                        if m:
+                                            return int(m.group(1))
+        # a constant sub-range of a fixed-size array: arr[a..b], arr[..b], arr[a..]
+        for lf in b.origins(pl, passthrough={}):
+            if lf["kind"] == "call" and re.search(r"ops::Index(Mut)?::index(_mut)?$", lf["call"].decl) and not [p for p in lf["proj"] if p != "*"] and len(lf["call"].args) == 2:
+                ic = lf["call"]
+                base_n = self.known_len(ic.args[0], ic.bb) if at_bb is not None else None
+                for l2 in b.origins(ic.args[1], passthrough={}):
+                    if l2["kind"] == "agg":
+                        rv = l2["stmt"]["rv"]
+                        vals = dict(zip(rv.get("fields", []), rv["ops"]))
+                        adt = rv.get("adt", "")
+                        lo = const_int(vals["start"]) if "start" in vals else 0
+                        hi = const_int(vals["end"]) if "end" in vals else base_n
+                        if adt.startswith("std::ops::Range") and lo is not None and hi is not None and 0 <= lo <= hi and (base_n is None or hi <= base_n) and "Inclusive" not in adt:
+                            return hi - lo
         for lf in b.origins(pl):
             if lf["kind"] == "call":
                 c = lf["call"]
+                # a call that returns a fixed-size array (to_be_bytes ...), viewed as a slice
+                if c.dest is not None and not c.dest["p"] and not [p for p in lf["proj"] if p != "*"]:
+                    m = re.match(r"^\[.*; (\d+)\]$", b.local_ty(c.dest["l"]))
+                    if m:
+                        return int(m.group(1))
                 if c.decl in ("std::ops::FnMut::call_mut", "std::ops::FnOnce::call_once", "std::ops::Fn::call") and c.self_ty and "nom::bytes::complete::take<" in c.self_ty:
                     # the matched slice is field .1 of the Ok payload
                     if tuple(p for p in lf["proj"] if p != "*")[-1:] == (".1",):
